@@ -3,6 +3,8 @@
 MODULE = "DtailModel.Props.C07"
 # scripts with real waits: a disagreement counts only if it reproduces when re-run alone (flake policy, DESIGN 2.3)
 TIMED_OPS = ("c07.multi",)
+# translated packages (tie G) this property's theorems rest on
+GEN_UNITS = ("Handlers",)
 GROUPS = ["C07", "C01"]
 BINS = True
 LOGGER = {"c07.multi": "none", "c07.sched": "stdout", "c07.pipe": "none", "c07.globid": "none", "c07.pause": "stdout"}
